@@ -6,7 +6,9 @@ GEN = 'call'
 RULE = ("programs with 1–4 methods of arity 0–3 (bodies display their name and arguments, call earlier methods), a recursive method "
         "(depth 0…300), a type with default properties (one a list), optional constructor, methods using 其 and returning 其自身; calls "
         "with planted display calls in arguments (evaluation order, once), right and wrong arities, 得到, chains, unknown methods and "
-        "properties; all objects' properties displayed after each object operation. Non-trivial = at least one call with arguments "
+        "properties; a method of one object calling a method of a linked object that handles a failure (抛出 / 1/0 / unknown method) "
+        "raised 0–3 calls below its handler, then reading and writing its own 其横; all objects' properties displayed after each object "
+        "operation. Non-trivial = at least one call with arguments "
         "and one object operation.")
 ASSUMPTIONS = ["unbounded recursion (Go stack exhaustion) is outside the quantifier"]
 PARTIAL = "computed properties (何为) are compiled but never consulted by the evaluator; not generated"
